@@ -109,7 +109,7 @@ def normalise(cssutils, ss):
         if k == 'unknown':
             return ('unknown', _op(lambda t: _norm_unknown(cssutils, t, depth), r[1])) + tuple(r[2:])
         if k == 'media':
-            return r[:3] + (mq(r[3]),) + r[4:6] + ([rule(x, depth + 1) for x in r[6]],) + tuple(r[7:])
+            return r[:3] + (mq(r[3]),) + r[4:7] + ([rule(x, depth + 1) for x in r[7]],) + tuple(r[8:])
         if k == 'fontface':
             return r[:3] + (block(r[3], depth + 1),) + tuple(r[4:])
         if k == 'page':
@@ -132,8 +132,32 @@ def normalise(cssutils, ss):
             return ('unknown', _op(lambda t: _norm_unknown(cssutils, t, 0), r[1])) + tuple(r[2:])
         return r
 
+    def var(r):
+        if r[0] == 'unknown':
+            return ('unknown', _op(lambda t: _norm_unknown(cssutils, t, 0), r[1])) + tuple(r[2:])
+        if r[0] != 'variables':
+            return r
+        blk = r[3]
+        ds = [d for d, _ in blk['items']] + ([blk['last']] if blk['last'] else [])
+        if len({d['name'] for d in ds}) != len(ds):
+            # the DOM is a mapping: a name declared twice is written once (not modelled by canonVarBlock)
+            raise Skip('variable-declared-twice')
+        nc = lambda g: [x for x in g if x[0] != 'cm']
+
+        def vd(d):
+            # comments before the value / between the declarations are moved into the item sequence by the parser and
+            # written on lines of their own: not modelled
+            d = dict(d)
+            d['value'] = val(d['value'])
+            d['g1'], d['g2'] = nc(d['g1']), nc(d['g2'])
+            return d
+        blk2 = {'lead': nc(blk['lead']), 'items': [(vd(d), nc(g)) for d, g in blk['items']],
+                'last': vd(blk['last']) if blk['last'] else None}
+        return r[:3] + (blk2,) + tuple(r[4:])
+
     return {'charset': ss['charset'], 'lead': ss['lead'], 'imports': [pre(r) for r in ss['imports']],
-            'namespaces': [pre(r) for r in ss['namespaces']], 'rules': [rule(r, 0) for r in ss['rules']]}
+            'namespaces': [pre(r) for r in ss['namespaces']], 'variables': [var(r) for r in ss.get('variables', ())],
+            'rules': [rule(r, 0) for r in ss['rules']]}
 
 
 def visible(ss):
@@ -146,7 +170,7 @@ def visible(ss):
         if k == 'style' or k == 'fontface':
             return bool(block_items(r[2] if k == 'style' else r[3]))
         if k == 'media':
-            return bool(r[6]) and all(ok(x) for x in r[6])
+            return bool(r[7]) and all(ok(x) for x in r[7])
         if k == 'page':
             b = r[5]
             plain = [it for it in b['items'] if it[0] == 'item' and it[1][0] != 'semi'] + ([b['last']] if b['last'] else [])
@@ -185,7 +209,12 @@ def gen_cases(cssutils, rng, n, counts):
 
 def real_tokens(cssutils, text):
     sheet = cssutils.parseString(text)
-    out = sheet.cssText.decode(sheet.encoding)
+    # as in the oracle of this check: with the default the serializer drops @variables and replaces var() (lossy by design)
+    cssutils.ser.prefs.resolveVariables = False
+    try:
+        out = sheet.cssText.decode(sheet.encoding)
+    finally:
+        cssutils.ser.prefs.useDefaults()
     toks = S.tokenize(out)
     return out, ','.join('%s:%s' % (S.mtype(t[0]), enc(t[1])) for t in toks) or '-'
 
